@@ -11,5 +11,11 @@ TEXTS = {
         "level_note": "Trusts the reference comparator (nil first, natural order per type, DESC reverses) and bytemap for building/decoding keys.",
         "technique": "property-based testing (rapid), validity-predicate oracle",
     },
+    "C05": {
+        "level_text": "Exploration with an exhaustive sub-domain: hundreds of thousands of generated expression trees / update multisets / splits and series pairs per run against a denotational model, plus complete enumeration of a bounded window of series alignments and truncation bounds for Merge and Truncate. Pure functions, so every case is exact and replayable; does not establish absence outside the enumerated window.",
+        "design_ref": "DESIGN.md section 4 C05",
+        "level_note": "Trusts the denotational evaluator (h/ref.go EvalEx; shares hdrhistogram with zenodb for PERCENTILE) and the translation from the case's expression AST to expr constructors.",
+        "technique": "property-based testing (rapid) + bounded exhaustive enumeration, model oracle",
+    },
 }
 NOT_APPLICABLE = []
